@@ -141,6 +141,9 @@ pub fn replay(path: &str) -> i32 {
                     for l in x.world.sim.borrow().log_lines(x.log_start) {
                         println!("      {}", l);
                     }
+                    for l in x.trace.iter() {
+                        println!("   {}", l);
+                    }
                     let o = lin::judge(&sc, x, &["C02", "C06", "C07", "C18"]);
                     for v in o.violations {
                         println!("VIOLATION {} {}: {}", v.prop, v.class, v.detail.chars().take(400).collect::<String>());
@@ -381,6 +384,25 @@ fn seq_family(prop: &str) -> i32 {
         }
         scen.push(stats_json(&format!("{} (130 L2 tables) salt0", crate::hist::Scenario::name(&sc)), &st));
     }
+    // host space one allocation short of a new refcount block: partial allocations, refblock creation
+    {
+        let gw = crate::extra::g9_wide(3);
+        let img = crate::extra::rb_edge_image();
+        let cs = gw.cs();
+        let w = |off: u64, len: u64, tag: u32| Op::Write { off, len: len as usize, tag };
+        let alpha = vec![w(100 * cs, cs, 1), w(110 * cs, 3 * cs, 3), w(120 * cs, cs, 4), w(2 * gw.tb(), 5 * cs, 5), Op::Discard { off: 0, len: 2 * cs }, Op::Flush, Op::Reopen];
+        qcow2_rs::verif::set_order_salt(0);
+        let sc = SeqScenario::new(img, gw.cfg_small(), gw.cfg_alt(), "small", alpha, oracles.clone());
+        let lim = BfsLimits { depth: if thorough { 5 } else { 4 }, max_states: 3_000_000, deadline: deadline_in(if thorough { 200 } else { 8 }) };
+        let st = bfs(&sc, &lim, &mut viol);
+        states += st.states;
+        trans += st.transitions;
+        outcomes += st.distinct_outcomes;
+        if st.capped || st.depth_completed < st.depth_target {
+            all_complete = false;
+        }
+        scen.push(stats_json(&format!("{} salt0", crate::hist::Scenario::name(&sc)), &st));
+    }
     // fragmented host space: multi-cluster allocations that cross refblock slices and must retry
     {
         let gf = crate::extra::GF;
@@ -405,7 +427,7 @@ fn seq_family(prop: &str) -> i32 {
     // C02 and C18 also quantify over what a concurrent flush can do: explore every schedule of
     // flush_meta / shrink_caches racing another operation and judge the quiescent end state
     let mut sched_json = json!(null);
-    if prop == "C02" || prop == "C18" {
+    if prop == "C02" || prop == "C18" || prop == "C03" {
         let sc = flush_scenarios(thorough);
         let (b, per, secs) = if thorough { (3, 200_000, 600) } else { (2, 4_000, 25) };
         match sched_explore(&run, &[prop], &sc, b, per, secs) {
@@ -514,6 +536,13 @@ pub fn sched_curated(g: &Geo) -> Vec<(&'static str, &'static str, Vec<Op>, Vec<V
         ("flush-vs-two-discards", "libfmt", vec![w(0, cs, 0x51), w(cs, cs, 0x52)], vec![vec![Op::Flush], vec![Op::Discard { off: 0, len: cs }], vec![Op::Discard { off: 0, len: 2 * cs }]]),
         ("two-discards-vs-write-cold-cache", "libfmt", vec![w(0, cs, 0x51), Op::Reopen], vec![vec![Op::Discard { off: 0, len: cs }], vec![Op::Discard { off: 0, len: cs }], vec![w(4 * cs, cs, 0x12), r(4 * cs, cs)]]),
         ("flush-vs-two-discards-vs-write", "libfmt", vec![w(0, cs, 0x51)], vec![vec![Op::Flush], vec![Op::Discard { off: 0, len: cs }], vec![Op::Discard { off: 0, len: cs }], vec![w(4 * cs, cs, 0x12)]]),
+        // refcount-block eviction (third slice into a 2-slice cache) inside an allocating write, racing a flush
+        ("flush-vs-refblock-eviction", "GF-filled", vec![w(200 * cs, cs, 0x51), Op::Discard { off: 0, len: cs }], vec![vec![Op::Flush], vec![w(210 * cs, 6 * cs, 0x11)]]),
+        // a writer whose own allocations dirty both cached refblock slices and then needs a third one
+        ("flush-vs-writes-evicting-dirty-refblock", "GF-holes", vec![w(200 * cs, cs, 0x51)], vec![vec![Op::Flush], vec![w(201 * cs, cs, 0x11), w(202 * cs, cs, 0x12), w(203 * cs, cs, 0x13), w(204 * cs, cs, 0x14), w(205 * cs, cs, 0x15)]]),
+        // shrink while a writer holds a clean L2 slice and waits for an uncached refcount-block slice
+        ("shrink-vs-write-cold-refcount", "libfmt", vec![w(0, cs, 0x51), Op::Flush, Op::Reopen, r(0, bs)], vec![vec![Op::Shrink], vec![w(cs, cs, 0x11)]]),
+        ("shrink-vs-write-vs-read-cold", "libfmt", vec![w(0, cs, 0x51), w(tb, bs, 0x52), Op::Flush, Op::Reopen, r(0, bs)], vec![vec![Op::Shrink], vec![w(cs, cs, 0x11)], vec![r(tb, bs)]]),
         // two flushes
         ("two-flushes", "libfmt", vec![w(0, cs, 0x51), w(tb, bs, 0x52)], vec![vec![Op::Flush], vec![Op::Flush]]),
         // COW of a backing cluster racing a read and another sub-write of the same cluster
@@ -527,6 +556,12 @@ pub fn sched_curated(g: &Geo) -> Vec<(&'static str, &'static str, Vec<Op>, Vec<V
 }
 
 fn sched_image(g: &Geo, kind: &str) -> ImageSet {
+    if kind == "GF-filled" {
+        return crate::extra::gf_filled_image();
+    }
+    if kind == "GF-holes" {
+        return crate::extra::gf_holes_image();
+    }
     images::initial_images(g, &[kind]).remove(0)
 }
 
@@ -699,7 +734,10 @@ pub fn sched_family(prop: &str) -> i32 {
     let run = Run::new(prop, "model_checking");
     let thorough = run.thorough();
     let g = images::G10;
-    let (bound, per_scn_execs, secs): (usize, u64, u64) = if thorough { (3, 400_000, 1200) } else { (2, 15_000, 40) };
+    let (mut bound, per_scn_execs, secs): (usize, u64, u64) = if thorough { (3, 400_000, 1200) } else { (2, 15_000, 40) };
+    if let Some(b) = std::env::var("QMC_BOUND").ok().and_then(|x| x.parse().ok()) {
+        bound = b;
+    }
     let setups: Vec<&str> = if thorough {
         vec!["empty", "Xdirty", "XYflushed", "Xdiscarded", "backing", "compressed"]
     } else {
@@ -718,6 +756,9 @@ pub fn sched_family(prop: &str) -> i32 {
             s.name = format!("{} [completion and poll split]", s.name);
         }
         scenarios.extend(unfused);
+    }
+    if let Ok(f) = std::env::var("QMC_ONLY") {
+        scenarios.retain(|s| s.name.contains(&f));
     }
     let want: Vec<&str> = match prop {
         "C06" => vec!["C06", "C07"],
@@ -1329,6 +1370,8 @@ pub fn discard_check() -> i32 {
             (images::G12, vec!["data", "data-last-table", "zero", "compressed", "backing"], "small", 2, 200, false),
         ];
     }
+    // slices bigger than the block size (4 KiB slices, 512-byte blocks), deeper, reduced alphabet
+    plans.push((images::G12, vec!["data", "backing", "libfmt"], "alt", if thorough { 5 } else { 4 }, if thorough { 300 } else { 15 }, false));
     let oracles = Oracles { c01: true, c02: true, c03: true, ..Default::default() };
     let mut viol: Vec<Violation> = vec![];
     let mut scen = vec![];
@@ -1340,7 +1383,8 @@ pub fn discard_check() -> i32 {
         let n = imgs.len() as u64;
         for img in imgs {
             qcow2_rs::verif::set_order_salt(0);
-            let mut sc = SeqScenario::new(img.clone(), cfg_of(g, cfgn), g.cfg_alt(), cfgn, images::discard_alphabet(g), oracles.clone());
+            let alpha = if *cfgn == "alt" { images::discard_alphabet_small(g) } else { images::discard_alphabet(g) };
+            let mut sc = SeqScenario::new(img.clone(), cfg_of(g, cfgn), g.cfg_small(), cfgn, alpha, oracles.clone());
             sc.relabel = Some("C11".into());
             sc.punch_unsupported = *nopunch;
             let lim = BfsLimits { depth: *depth, max_states: 3_000_000, deadline: deadline_in((secs / n).max(2)) };
